@@ -184,6 +184,13 @@ func checkC12(tier, replay string) int {
 		for _, v := range caseVariants(n) {
 			aliasChecks++
 			got, err := arch.GetInfo(v)
+			if err == nil && got != nil && len(got.SyscallNames) > 0 && len(got.SyscallNumbers) > 0 {
+				// an architecture that has been given a table of its own since is fine - if it is its own: the identifier has to
+				// be the kernel's for that name
+				if want, ok := o.AuditArch[strings.ToUpper(n)]; ok && uint32(got.ID) == want {
+					continue
+				}
+			}
 			if err == nil || got != nil {
 				ctx.Violation("C12:unsupported:"+n, fmt.Sprintf("GetInfo(%q) = %v, %v; want an unsupported-architecture error", v, got, err), map[string]any{"name": v})
 			}
